@@ -27,10 +27,11 @@ RULE = ("random spec-level alignment records (0..4 references, refID -1, read na
         "x whole read / every (small files) or sampled chunk size >= largest record / interval via BamIntervalBuffer and "
         "alignment_to_interval / {whole, every mask of five, permutations and repetitions of equal-sized records, chunk-stream} write "
         "back / read a field, write the selection, read all fields again / selection programs (selections of selections, writes between "
-        "selections, reads after writes) / max_chunk_size / eager reading (lazy=False) / count_entries / write of a chunk with replaced values (must be refused). Non-trivial = >= 2 records with "
+        "selections, reads after writes) / trees of tables (the parent read or written after a slice / mask / index child was written) / "
+        "max_chunk_size / eager reading (lazy=False) / count_entries / write of a chunk with replaced values (must be refused). Non-trivial = >= 2 records with "
         "different name-length / CIGAR-count / sequence-parity shapes")
 EXHAUSTIVE = {"quick": False, "thorough": False}
-MODEL_OPS = {"decode", "chunked", "interval", "write", "count", "program"}
+MODEL_OPS = {"decode", "chunked", "interval", "write", "count", "program", "tree"}
 PARALLEL = 16
 ASSUMPTIONS = ["gzip.open(...).read(n) returns min(n, remaining) bytes of the concatenated members (BGZF = gzip members)",
                "NumPy fancy indexing / .view(dtype) / ragged_slice are modelled as list slices and little-endian sums",
@@ -56,7 +57,7 @@ MANIFEST = {
             "is outside the modelled domain. Measured (16 cores, seeds 0-3): quick 15-30 s / ~3.7k cases, thorough 3-5 min / ~59k cases "
             "(every chunk size from the largest record to file size + 2 for the small files). Defects found and fixed in /repo: "
             "ebaee36 (unmapped -> last reference name; zero-reference BAM unreadable), d080e2f (uint16 wrap of n_cigar_op*4), "
-            "9afb68d (count_entries on BAM raised NameError), 4c831e1 (stale cached offsets after a selection was written). 50 audited theorems incl. a complete spec-level decoder inverting the encoder.",
+            "9afb68d (count_entries on BAM raised NameError), 4c831e1 (stale cached offsets after a selection was written). 54 audited theorems incl. a complete spec-level decoder inverting the encoder.",
     "technique": "Lean 4 proof (induction over the record list) over an executable decoder model + spec-level encoder; tables regenerated "
                  "from source (decide); differential correspondence with the implementation on independently encoded files",
     "design": "§6 C16",
@@ -256,6 +257,34 @@ def impl(c):
                 return obs
             except Exception as e:
                 return _err(e)
+        if op == "tree":
+            # several tables alive at once: tabs[0] is the file, every selection appends a table; writes / reads name a table
+            out = _path("out")
+            try:
+                tabs = [bnp.open(p).read()]
+                obs = []
+                for st in c["steps"]:
+                    if st[0] == "sel":
+                        src, kind = tabs[st[1]], st[2]
+                        if kind == "mask":
+                            m = np.zeros(len(src), dtype=bool)
+                            m[st[3]] = True
+                            tabs.append(src[m])
+                        elif kind == "index":
+                            tabs.append(src[np.array(st[3], dtype=int)])
+                        else:
+                            tabs.append(src[slice(*st[3])])
+                    elif st[0] == "write":
+                        with bnp.open(out, "w") as f:
+                            f.write(tabs[st[1]])
+                        raw = gzip.decompress(open(out, "rb").read())
+                        text, refs, recs, hdr_end = decode_file_bytes(raw)
+                        obs.append({"w": bhash(raw[hdr_end:]), "recs": [_full(r) for r in recs]})
+                    else:
+                        obs.append({"r": _rows(tabs[st[1]])})
+                return obs
+            except Exception as e:
+                return _err(e)
         if op == "write_then_read":
             out = _path("out")
             try:
@@ -366,6 +395,18 @@ def oracle(c):
     body = b"".join(encode_record(r) for r in recs)
     if op == "count":
         return {"n": len(recs)}
+    if op == "tree":
+        tabs, obs = [list(recs)], []
+        for st in c["steps"]:
+            if st[0] == "sel":
+                src = tabs[st[1]]
+                tabs.append([src[i] for i in st[3]] if st[2] in ("mask", "index") else src[slice(*st[3])])
+            elif st[0] == "write":
+                cur = tabs[st[1]]
+                obs.append({"w": bhash(b"".join(encode_record(r) for r in cur)), "recs": [_full(dict(r, cigar=[list(x) for x in r["cigar"]])) for r in cur]})
+            else:
+                obs.append({"r": [view(refs, r) for r in tabs[st[1]]]})
+        return obs
     if op == "program":
         cur, obs = list(recs), []
         for st in c["steps"]:
@@ -405,7 +446,7 @@ def oracle(c):
 
 
 def agree(c, got, exp):
-    if c["op"] == "program" and isinstance(got, list):
+    if c["op"] in ("program", "tree") and isinstance(got, list):
         if len(got) != len(exp):
             return False
         return all((core.canon(g.get("recs")) == core.canon(e["recs"])) if "w" in e else (core.canon(g) == core.canon(e)) for g, e in zip(got, exp))
@@ -427,13 +468,13 @@ def agree(c, got, exp):
 
 
 def agree_spec(c, s, exp):
-    if c["op"] == "program":
+    if c["op"] in ("program", "tree"):
         return core.canon(s) == core.canon([{"w": e["w"]} if "w" in e else e for e in exp])
     return core.canon(s) == core.canon(exp)
 
 
 def agree_model(c, got, m):
-    if c["op"] == "program":
+    if c["op"] in ("program", "tree"):
         return isinstance(got, list) and core.canon([{"w": g["w"]} if "w" in g else g for g in got]) == core.canon(m)
     if c["op"] == "write" and isinstance(got, dict) and "body" in got:
         return all(core.canon(got[k]) == core.canon(m.get(k)) for k in ("body", "file", "eof"))
@@ -472,6 +513,16 @@ def model_request(c):
     if c["op"] == "write":
         q["idx"] = _sel(c)
         q["mode"] = c["mode"]
+    if c["op"] == "tree":
+        lens, steps = [len(c["recs"])], []
+        for st in c["steps"]:
+            if st[0] == "sel":
+                idx = list(st[3]) if st[2] in ("mask", "index") else list(range(lens[st[1]]))[slice(*st[3])]
+                steps.append(["sel", st[1], idx])
+                lens.append(len(idx))
+            else:
+                steps.append([st[0], st[1]])
+        q["steps"] = steps
     if c["op"] == "program":
         n, steps = len(c["recs"]), []
         for st in c["steps"]:
@@ -529,6 +580,9 @@ def finding_key(c, got, exp):
                         return "interval:n_cigar>=16384"
                     return f"interval:{which}:wrong-" + ["chromosome", "start", "stop", "name", "score", "strand"][bad[0][1]]
                 return f"interval:{which}:wrong-count"
+    if op == "tree":
+        kinds = "-".join(st[0] + (str(st[2]) if st[0] == "sel" else "") + str(st[1]) for st in c["steps"])
+        return "tree:" + ("error:" + got["err"] if isinstance(got, dict) and "err" in got else "wrong-observation") + ":" + kinds[:70]
     if op == "program":
         kinds = "-".join(st[0] for st in c["steps"])
         return "program:" + ("error:" + got["err"] if isinstance(got, dict) and "err" in got else "wrong-observation") + ":" + kinds[:60]
@@ -771,6 +825,42 @@ def cases(tier, rng):
     for _ in range(160 * f):
         c = rand_file(rng, nrec=rng.choice([3, 4, 6, 8]))
         yield dict(c, op="program", steps=rand_steps(len(c["recs"])))
+    # TREES of tables: a selection keeps its parent; the parent is read / selected from / written AFTER a child was written, etc.
+    def rand_tree(n):
+        lens, steps = [n], []
+        for _ in range(rng.choice([3, 4, 5, 7])):
+            kind = rng.choice(["sel", "sel", "write", "write", "fields"])
+            i = rng.randrange(len(lens))
+            if kind == "sel":
+                m = lens[i]
+                how = rng.choice(["mask", "index", "slice", "slice", "slice"])
+                if how == "mask":
+                    idx = sorted(rng.sample(range(m), rng.randrange(0, m + 1))) if m else []
+                    steps.append(["sel", i, "mask", idx]); lens.append(len(idx))
+                elif how == "index":
+                    idx = [rng.randrange(m) for _ in range(rng.choice([1, m, m + 1]))] if m else []
+                    steps.append(["sel", i, "index", idx]); lens.append(len(idx))
+                else:
+                    sl = rng.choice([[1, None, None], [None, -1, None], [None, None, 2], [None, None, -1], [1, None, 2],
+                                     [rng.randrange(0, m + 1), rng.randrange(0, m + 1), None], [2, 5, None]])
+                    steps.append(["sel", i, "slice", sl]); lens.append(len(range(m)[slice(*sl)]))
+            else:
+                steps.append([kind, i])
+        steps.append(["fields", 0])
+        steps.append(["write", rng.randrange(len(lens))])
+        return steps
+    fixed_trees = [[["sel", 0, "slice", [2, 5, None]], ["write", 1], ["fields", 0], ["sel", 0, "mask", [0, 3, 5]], ["write", 2]],
+                   [["sel", 0, "slice", [None, None, 2]], ["write", 1], ["fields", 0], ["write", 0]],
+                   [["sel", 0, "slice", [None, None, -1]], ["write", 1], ["fields", 0], ["fields", 1]],
+                   [["sel", 0, "mask", [1, 2, 4]], ["sel", 1, "slice", [1, None, None]], ["write", 2], ["fields", 1], ["write", 1], ["fields", 0]],
+                   [["sel", 0, "index", [5, 0, 3]], ["sel", 0, "slice", [1, 4, None]], ["write", 2], ["write", 1], ["fields", 0], ["fields", 2]],
+                   [["sel", 0, "slice", [1, None, None]], ["sel", 1, "slice", [1, None, None]], ["write", 2], ["fields", 1], ["fields", 0], ["write", 1]]]
+    for recs_ in (eq, uneq):
+        for steps in fixed_trees:
+            yield {"op": "tree", "refs": two, "text": [], "recs": recs_, "blk": 4096, "eof": True, "steps": steps}
+    for _ in range(120 * f):
+        c = rand_file(rng, nrec=rng.choice([3, 4, 6, 8]))
+        yield dict(c, op="tree", steps=rand_tree(len(c["recs"])))
     # eager reading (BamBuffer.get_data / BamIntervalBuffer.get_data), count_entries, writing a chunk with replaced values
     yield {"op": "count", "refs": two, "text": [], "recs": [base, unm, rv], "blk": 4096, "eof": True}
     for _ in range(40 * f):
